@@ -59,6 +59,14 @@ def check_note(ctx, case):
         if not failed(back):
             ctx.check(n.name == name and n.octave == octave, "note/round-trip",
                       lambda: "%r: back at %s-%d" % (case, n.name, n.octave))
+    # the octave moved in between: up, one octave higher, down again - back on the name, one octave above the start
+    if up:
+        m = Note(name, octave)
+        ctx.ok("transpose", m.transpose, sh, True)
+        ctx.ok("octave_up", m.octave_up)
+        ctx.ok("transpose", m.transpose, sh, False)
+        ctx.check((m.name, m.octave) == (name, octave + 1), "note/up-octave-down",
+                  lambda: "%r: up, octave_up, down gives %s-%d, expected %s-%d" % (case, m.name, m.octave, name, octave + 1))
     ctx.note_case(crossing or name[1:] in ("b", "#") and name[0] in "CBEF", ["note:" + ("up" if up else "down") + (":crossing" if crossing else "")])
 
 
@@ -162,6 +170,29 @@ def check_track(ctx, case):
         bi = step[2] % nb
         ne = len(track.bars[bi].bar)
         where = "step %d %r" % (k, step)
+        if kind in ("octave", "replace"):
+            # edits between the operations: the notes of one entry change octave (Note.change_octave), or the entry gets a new
+            # container (bar[i] = notes).  Later operations apply to what is in the track then.
+            if ne == 0:
+                continue
+            ei = step[3] % ne
+            expected = [[list(e) for e in b] for b in before]
+            if kind == "octave":
+                nc = track.bars[bi].bar[ei][2]
+                if nc is None:
+                    continue
+                for nt in nc.notes:
+                    ctx.ok("change_octave", nt.change_octave, step[4])
+                expected[bi][ei][2] = [[x[0], max(0, x[1] + step[4])] + x[2:] for x in before[bi][ei][2]]
+            else:
+                import mingus.containers as _mc
+                new = [["D", 4, 1, 64], ["F#", 4, 2, 70]] if step[4] else [["A", 3, 3, 80]]
+                ctx.ok("bar-setitem", track.bars[bi].__setitem__, ei, _mc.NoteContainer([_mc.Note(x[0], x[1], channel=x[2], velocity=x[3]) for x in new]))
+                expected[bi][ei][2] = [list(x) for x in new]
+            got = _snap(track)
+            ctx.check(got == expected, "edit-between-operations/" + kind, lambda: "%s: %r, expected %r" % (where, got[bi][ei], expected[bi][ei]))
+            flags.add("edit-between-operations")
+            continue
         if level == "track":
             target = track
             hit = lambda i, j: True  # noqa
@@ -253,6 +284,8 @@ def _steps_st():
         st.tuples(st.just("transpose"), st.sampled_from(["track", "bar", "nc"]), st.integers(0, 7), st.integers(0, 15), sh, st.booleans()),
         st.tuples(st.just("augment"), st.sampled_from(["track", "bar", "nc"]), st.integers(0, 7), st.integers(0, 15)),
         st.tuples(st.just("diminish"), st.sampled_from(["track", "bar", "nc"]), st.integers(0, 7), st.integers(0, 15)),
+        st.tuples(st.just("octave"), st.just("nc"), st.integers(0, 7), st.integers(0, 15), st.sampled_from([1, -1, 2])),
+        st.tuples(st.just("replace"), st.just("nc"), st.integers(0, 7), st.integers(0, 15), st.booleans()),
     ).map(list)
     return st.lists(step, min_size=1, max_size=8)
 
